@@ -26,7 +26,7 @@ RULE = ('split_path: directed corpus (docstring examples, boundaries), complete 
         'enumeration of pairs of items of length <= 2 over {comma, quote, backslash, space, a, n} and triples of '
         'length <= 1, seeded lists of 1..5 items over printable ASCII, damaged texts per malformation type; '
         'distinct by text')
-REQUIRED_CLAUSES = ['path-under-warnings-as-errors', 'malformed-quoting-rejected-in-bounded-work', 'path-history-independent', 'concurrent-calls-answer-as-alone', 'under-lazy-translation', 'path-keyword-call', 'path-must-accept', 'path-must-reject', 'path-min-gt-max', 'path-no-leading-slash',
+REQUIRED_CLAUSES = ['path-flag-by-truth-value', 'path-under-warnings-as-errors', 'malformed-quoting-rejected-in-bounded-work', 'path-history-independent', 'concurrent-calls-answer-as-alone', 'under-lazy-translation', 'path-keyword-call', 'path-must-accept', 'path-must-reject', 'path-min-gt-max', 'path-no-leading-slash',
                     'path-empty-leading-segment', 'path-trailing-slash', 'path-rest-with-last',
                     'path-none-padding', 'path-dont-care-shape', 'path-result-shape',
                     'commas-round-trip', 'commas-return-type', 'commas-must-reject', 'commas-dont-care']
@@ -143,17 +143,24 @@ def eval_path(ctx, case):
             return
     if 'want' in case:              # documented example: the literal answer
         answers = [case['want']]
+    rest_arg = rest
+    if case.get('flag_style'):
+        # rest_with_last as any true / false value (1, 2, 'yes', a non-empty list / 0, None, '', []): a flag is judged by
+        # its truth value
+        rest_arg = {'int': 1 if rest else 0, 'two': 2 if rest else 0, 'str': 'yes' if rest else '', 'list': ['x'] if rest else [],
+                    'none': True if rest else None}[case['flag_style']]
+        ctx.clause('path-flag-by-truth-value')
     try:
         if case.get('defaults'):    # call with the default arguments
             got = strutils.split_path(path)
         elif case.get('kw'):
             ctx.clause('path-keyword-call')
             if (minsegs + (maxsegs or 0) + len(path)) % 2:
-                got = strutils.split_path(path=path, minsegs=minsegs, maxsegs=maxsegs, rest_with_last=rest)
+                got = strutils.split_path(path=path, minsegs=minsegs, maxsegs=maxsegs, rest_with_last=rest_arg)
             else:
-                got = strutils.split_path(path, minsegs=minsegs, maxsegs=maxsegs, rest_with_last=rest)
+                got = strutils.split_path(path, minsegs=minsegs, maxsegs=maxsegs, rest_with_last=rest_arg)
         else:
-            got = strutils.split_path(path, minsegs, maxsegs, rest)
+            got = strutils.split_path(path, minsegs, maxsegs, rest_arg)
         exc = None
     except BaseException as e:  # noqa
         got, exc = None, e
@@ -485,6 +492,8 @@ def run(ctx):
             case = dict(case, lazy_i18n=True)
         if idx % 4 == 1 and case['kind'] == 'path':
             case = dict(case, warnings_as_errors=True)
+        if idx % 6 == 2 and case['kind'] == 'path' and not case.get('defaults'):
+            case = dict(case, flag_style=('int', 'two', 'str', 'list', 'none')[(idx // 6) % 5])
         if idx % 3 == 0 and case['kind'] == 'path' and not case.get('defaults'):
             case = dict(case, kw=True)          # documented parameter names given by keyword
         if ctx.mine(idx):
@@ -499,6 +508,8 @@ def run(ctx):
             case = dict(case, lazy_i18n=True)
         if nown[0] % 4 == 1 and case['kind'] == 'path':
             case = dict(case, warnings_as_errors=True)
+        if nown[0] % 6 == 2 and case['kind'] == 'path' and not case.get('defaults'):
+            case = dict(case, flag_style=('int', 'two', 'str', 'list', 'none')[(nown[0] // 6) % 5])
         if nown[0] % 3 == 0 and case['kind'] == 'path' and not case.get('defaults'):
             case = dict(case, kw=True)
         ctx.sample(case['kind'] + '/' + (case.get('cls') or ''), case)
